@@ -1115,6 +1115,52 @@ theorem C13_browse_end_to_end (w : World) (side : Side) (u dc v : Nat) (url : Wo
         Option.getD_some, Bool.and_true] <;>
       exact ⟨by decide, trivial, trivial⟩
 
+/-- **Fetching on a node whose dns-client has been uninstalled** (the repaired `get_webpage`; it used to raise): nobody is
+asked to resolve anything.  A URL whose host is a NAME fails the documented way — `latest_response` is the preset 404, the history
+gains nothing, no `receive` call is made anywhere, the answer is False.  A URL whose host is a literal ADDRESS is fetched exactly
+as on a node with a dns-client (minus the DNS traffic): same status, same history entry, same effect on the server. -/
+theorem C13_browse_without_dns_client (w : World) (side : Side) (u v : Nat) (url : World.Url)
+    (latest : Option (Option Nat)) (hist : List (Nat × Option (Option Nat))) (tgt : Option Nat)
+    (codes : List Nat) (conn : Option Bool)
+    (hbr : dget u (w.get side).data = some (.webBrowser latest hist tgt))
+    (hact : (w.get side).n.handles u = true)
+    (hdc : dget "dns-client" (w.get side).n.software = none) :
+    (∀ name, url.host = .name name →
+      (w.browse side u (some url)).2 = .ret false ∧
+      dget u ((w.browse side u (some url)).1.get side).data = some (.webBrowser (some (some 404)) hist tgt) ∧
+      (w.browse side u (some url)).1.log = w.log) ∧
+    (∀ text, url.host = .addr (w.get side.other).addr text →
+      (w.get side.other).n.isOn = true →
+      (w.get side.other).n.frameAccepted (.tcp (url.port.getD 80)) false = true →
+      recvCalls (w.get side.other).n (url.port.getD 80) 1 false = [(v, false)] →
+      dget v (w.get side.other).data = some (.webServer codes conn) →
+      (w.get side.other).n.handles v = true →
+      (w.get side).n.frameAccepted (.tcp (url.port.getD 80)) false = true →
+      recvCalls (w.get side).n (url.port.getD 80) 1 false = [(u, false)] →
+      let code := (webGet url.path conn (w.get side.other).dbVerdict).1
+      (w.browse side u (some url)).2 = .ret (code == 200) ∧
+      dget u ((w.browse side u (some url)).1.get side).data =
+        some (.webBrowser (some (some code)) (hist ++ [(url.id, some (some code))]) tgt) ∧
+      dget v ((w.browse side u (some url)).1.get side.other).data =
+        some (.webServer (codes ++ [code]) (webGet url.path conn (w.get side.other).dbVerdict).2.1)) := by
+  have hon1 := handles_isOn _ _ hact
+  constructor
+  · intro name hhost
+    cases side <;>
+      simp only [World.get] at hbr hact hdc ⊢ <;>
+      simp only [World.browse, World.get, World.set, hbr, hact, Bool.not_true, Bool.false_eq_true, if_false, NetNode.setData,
+        hdc, hhost, dget_dset, if_true] <;>
+      exact ⟨trivial, trivial, trivial⟩
+  · intro text hhost hon hacc hpath hsrv hsact hacc2 hpath2 code
+    cases side <;>
+      simp only [Side.other, World.get] at hbr hact hdc hon hacc hpath hsrv hacc2 hpath2 hsact hon1 hhost ⊢ <;>
+      simp only [World.browse, World.get, World.set, hbr, hact, Bool.not_true, Bool.false_eq_true, if_false, NetNode.setData,
+        hdc, dget_dset, if_true, hhost, World.sendOk, Side.other, beq_self_eq_true, hon, hon1, Bool.and_self, Bool.true_and,
+        World.send, World.fuel, World.run, World.route, hdrOf_tcp, hacc, hacc2, Payload.isScan, hpath, hpath2,
+        NetNode.recvAt, hsrv, hsact, Data.receiveH, List.map_cons, List.map_nil, List.cons_append, List.nil_append,
+        isOn_healthWrite, Option.getD_some, Bool.and_true] <;>
+      exact ⟨by simp [code, World.get, Side.other], rfl, rfl⟩
+
 /-! ### the transport terminates -/
 
 theorem recvCalls_length_le (n : Node) (port proto : Nat) (scan : Bool) :
@@ -1618,7 +1664,7 @@ theorem C13_gen_method_bodies :
   ("WebServer._handle_get_request", ["response = HttpResponsePacket(status_code=HttpStatusCode.NOT_FOUND, payload=payload)", "parsed_url = urlparse(payload.request_url)", "path = parsed_url.path.strip('/') if parsed_url and parsed_url.path else ''", "if len(path) < 1 { response.status_code = HttpStatusCode.OK }", "if path.startswith('users') { if not self._establish_db_connection() { response.status_code = HttpStatusCode.INTERNAL_SERVER_ERROR; return response }; if self.db_connection.query('SELECT') { self.set_health_state(SoftwareHealthState.GOOD); response.status_code = HttpStatusCode.OK } else { self.set_health_state(SoftwareHealthState.COMPROMISED) } }", "return response"]),
   ("WebServer._establish_db_connection", ["if self.db_connection { return True }", "db_client = self.software_manager.software.get('database-client')", "if db_client is None { return False }", "self.db_connection: DatabaseClientConnection = db_client.get_new_connection()", "return self.db_connection is not None"]),
   ("WebBrowser.receive", ["if not super().receive(payload=payload, session_id=session_id, **kwargs) { return False }", "if not isinstance(payload, HttpResponsePacket) { return False }", "self.latest_response = payload", "return True"]),
-  ("WebBrowser.get_webpage", ["url = url or self.config.target_url", "if not self._can_perform_action() { return False }", "self.num_executions += 1", "self.latest_response = HttpResponsePacket(status_code=HttpStatusCode.NOT_FOUND)", "if not url { return False }", "try { parsed_url = urlparse(url) } except Exception { return False }", "dns_client: DNSClient = self.software_manager.software.get('dns-client')", "domain_exists = dns_client.check_domain_exists(target_domain=parsed_url.hostname)", "if domain_exists { self.domain_name_ip_address = dns_client.dns_cache[parsed_url.hostname] } else { try { self.domain_name_ip_address = IPv4Address(parsed_url.hostname) } except Exception { return False } }", "payload = HttpRequestPacket(request_method=HttpRequestMethod.GET, request_url=url)", "if self.send(payload=payload, dest_ip_address=self.domain_name_ip_address, dest_port=parsed_url.port if parsed_url.port else PORT_LOOKUP['HTTP']) { self.history.append(WebBrowser.BrowserHistoryItem(url=url, status=self.BrowserHistoryItem._HistoryItemStatus.LOADED, response_code=self.latest_response.status_code)); return self.latest_response.status_code is HttpStatusCode.OK } else { self.history.append(WebBrowser.BrowserHistoryItem(url=url, status=self.BrowserHistoryItem._HistoryItemStatus.SERVER_UNREACHABLE)); return False }"])] := by
+  ("WebBrowser.get_webpage", ["url = url or self.config.target_url", "if not self._can_perform_action() { return False }", "self.num_executions += 1", "self.latest_response = HttpResponsePacket(status_code=HttpStatusCode.NOT_FOUND)", "if not url { return False }", "try { parsed_url = urlparse(url) } except Exception { return False }", "dns_client: Optional[DNSClient] = self.software_manager.software.get('dns-client')", "if dns_client is None {  }", "domain_exists = dns_client is not None and dns_client.check_domain_exists(target_domain=parsed_url.hostname)", "if domain_exists { self.domain_name_ip_address = dns_client.dns_cache[parsed_url.hostname] } else { try { self.domain_name_ip_address = IPv4Address(parsed_url.hostname) } except Exception { return False } }", "payload = HttpRequestPacket(request_method=HttpRequestMethod.GET, request_url=url)", "if self.send(payload=payload, dest_ip_address=self.domain_name_ip_address, dest_port=parsed_url.port if parsed_url.port else PORT_LOOKUP['HTTP']) { self.history.append(WebBrowser.BrowserHistoryItem(url=url, status=self.BrowserHistoryItem._HistoryItemStatus.LOADED, response_code=self.latest_response.status_code)); return self.latest_response.status_code is HttpStatusCode.OK } else { self.history.append(WebBrowser.BrowserHistoryItem(url=url, status=self.BrowserHistoryItem._HistoryItemStatus.SERVER_UNREACHABLE)); return False }"])] := by
   rfl
 
 /-- well-known ports the end-to-end theorems use, the default capacity of `Conn`, and: no class overrides the connection
